@@ -583,6 +583,9 @@ func (c *wouldApplyContext) wouldApplyLookupContext1(data tables.SequenceContext
 
 func (c *wouldApplyContext) wouldApplyLookupContext2(data tables.SequenceContextFormat2, index int, glyphID GID) bool {
 	class, _ := data.ClassDef.Class(gID(glyphID))
+	if int(class) >= len(data.ClassSeqRuleSet) { // class is not sanitized in tt.Parse
+		return false
+	}
 	ruleSet := data.ClassSeqRuleSet[class]
 	return c.wouldApplyRuleSet(ruleSet, matchClass(data.ClassDef))
 }
@@ -620,6 +623,9 @@ func (c *wouldApplyContext) wouldApplyLookupChainedContext1(data tables.ChainedS
 
 func (c *wouldApplyContext) wouldApplyLookupChainedContext2(data tables.ChainedSequenceContextFormat2, index int, glyphID GID) bool {
 	class, _ := data.InputClassDef.Class(gID(glyphID))
+	if int(class) >= len(data.ChainedClassSeqRuleSet) { // class is not sanitized in tt.Parse
+		return false
+	}
 	ruleSet := data.ChainedClassSeqRuleSet[class]
 	return c.wouldApplyChainRuleSet(ruleSet, matchClass(data.InputClassDef))
 }
